@@ -5,6 +5,8 @@ assignments restricted to the variables `1..nvars` and the combinatorial objects
 -/
 import Lemmas.FamBij
 import Props.C01.Php
+import Props.C01.Counting
+import Mathlib.Data.List.Nodup
 namespace Cnfgen.C01
 open Cnfgen Cnfgen.Fam
 
@@ -226,5 +228,81 @@ theorem php_functional_bijection (m n : Nat) (o : Bool) :
 
 example : Placement 2 2 true true (graphOf (fun i : Fin 2 => i)) :=
   (placement_graphOf_iff true _).2 ⟨fun _ _ h => h, fun _ j => ⟨j, rfl⟩⟩
+
+/-! ### counting principle: assignments ↔ partitions into `p`-sets -/
+
+/-- the `p`-subsets of `[1..M]` -/
+abbrev PSubset (M p : Nat) := {S : List Nat // IsSubset M p S}
+
+/-- `T` (a family of `p`-subsets, as an indicator) partitions `[1..M]`: every element lies in
+exactly one member of the family -/
+def IsPartition (M p : Nat) (T : PSubset M p → Bool) : Prop :=
+  ∀ x, 1 ≤ x → x ≤ M →
+    ∃ S : PSubset M p, x ∈ S.1 ∧ T S = true ∧ ∀ S' : PSubset M p, x ∈ S'.1 → T S' = true → S' = S
+
+theorem psubset_idx_lt {M p : Nat} (S : PSubset M p) :
+    (Vars.combosSeqs M p).idxOf S.1 < (countingF M p).nvars :=
+  List.idxOf_lt_length_iff.2 ((mem_combosSeqs_iff M p S.1).2 S.2)
+
+/-- the family described by an assignment: `S` is chosen iff `X(S)` is true -/
+def countToObj (M p : Nat) (a : Fin (countingF M p).nvars → Bool) : PSubset M p → Bool :=
+  fun S => a ⟨(Vars.combosSeqs M p).idxOf S.1, psubset_idx_lt S⟩
+
+/-- the assignment describing a family -/
+def countOfObj (M p : Nat) (T : PSubset M p → Bool) : Fin (countingF M p).nvars → Bool :=
+  fun i => T ⟨(Vars.combosSeqs M p)[i.val]'i.isLt,
+    (mem_combosSeqs_iff M p _).1 (List.getElem_mem i.isLt)⟩
+
+theorem count_ofObj_toObj (M p : Nat) (a : Fin (countingF M p).nvars → Bool) :
+    countOfObj M p (countToObj M p a) = a := by
+  funext i
+  simp only [countOfObj, countToObj]
+  congr 1
+  apply Fin.ext
+  exact (nodup_combosSeqs M p).idxOf_getElem i.val i.isLt
+
+theorem count_toObj_ofObj (M p : Nat) (T : PSubset M p → Bool) :
+    countToObj M p (countOfObj M p T) = T := by
+  funext S
+  simp only [countOfObj, countToObj]
+  congr 1
+  apply Subtype.ext
+  exact List.getElem_idxOf _
+
+/-- the satisfying assignments (restricted to the `C(M,p)` variables) are exactly those that
+describe a partition of `[M]` into `p`-sets; with the two inverse laws above this is the bijection
+"satisfying assignments ↔ partitions" -/
+theorem counting_holds_iff_partition (M p : Nat) (a : Fin (countingF M p).nvars → Bool) :
+    (countingF M p).holds (extend a) = true ↔ IsPartition M p (countToObj M p a) := by
+  rw [counting_spec]
+  have key : ∀ S : PSubset M p, extend a (countVar M p S.1) = countToObj M p a S := by
+    intro S
+    have hlt := psubset_idx_lt S
+    simp only [countVar, countToObj]
+    rw [show extend a (1 + (Vars.combosSeqs M p).idxOf S.1)
+        = a ⟨1 + (Vars.combosSeqs M p).idxOf S.1 - 1, by omega⟩ from
+      Fam.extend_apply a (by omega) (by omega)]
+    congr 1; apply Fin.ext; simp
+  constructor
+  · intro h x h1 h2
+    obtain ⟨S, hS, hx, hc, hu⟩ := h x h1 h2
+    refine ⟨⟨S, hS⟩, hx, by rw [← key]; exact hc, ?_⟩
+    intro S' hx' hc'
+    apply Subtype.ext
+    exact hu S'.1 S'.2 hx' (show extend a (countVar M p S'.1) = true by rw [key]; exact hc')
+  · intro h x h1 h2
+    obtain ⟨S, hx, hc, hu⟩ := h x h1 h2
+    refine ⟨S.1, S.2, hx, show extend a (countVar M p S.1) = true by rw [key]; exact hc, ?_⟩
+    intro S' hS' hx' hc'
+    have := hu ⟨S', hS'⟩ hx' (by rw [← key]; exact hc')
+    exact congrArg Subtype.val this
+
+theorem counting_bijection (M p : Nat) :
+    (∀ a, (countingF M p).holds (extend a) = true → IsPartition M p (countToObj M p a)) ∧
+    (∀ T, IsPartition M p T → (countingF M p).holds (extend (countOfObj M p T)) = true) ∧
+    (∀ a, countOfObj M p (countToObj M p a) = a) ∧ (∀ T, countToObj M p (countOfObj M p T) = T) :=
+  ⟨fun a h => (counting_holds_iff_partition M p a).1 h,
+   fun T h => (counting_holds_iff_partition M p _).2 (by rw [count_toObj_ofObj]; exact h),
+   count_ofObj_toObj M p, count_toObj_ofObj M p⟩
 
 end Cnfgen.C01
